@@ -184,6 +184,10 @@ def run(vm, n_writers, max_chunks, steps, kinds):
             writers.append([blob.get_blob_writer('1.2.3.%d' % w, 3333), chunks, kind, 0, b''])
         except OSError:
             return 'VIOLATION: a second peer cannot open a writer'
+    # any peer's response may declare a length again (any integer): the first declaration stands
+    blob.set_length(vm.new_int('declared_again', -3, 3 * 2 ** 20))
+    if blob.get_length() != n:
+        return 'VIOLATION: the declared length of a blob changed after it was set'
     winner = None
     for step in range(steps):
         cur = writers[vm.pick('sched', n_writers)]
